@@ -45,6 +45,15 @@ def c14(tier):
         ck.violation("data race between concurrent requests: %s" % (frames[0] if frames else "(no keto frame)"), {"report": rc[:3000]})
     if lib.CRASHED and not races:
         raise Inconclusive("conc harness failed without a race report: %s" % lib.CRASHED[0][2][-1500:])
+    # the rounds with abandoned requests once more in a binary without the race detector (which slows every request down and
+    # makes sync.Pool drop and reshuffle what it holds): three times as many rounds, nothing else
+    plain = build_harness(race=False, name="harness_plain.test")
+    crashed_before = list(lib.CRASHED)
+    recs2 = run_harness(plain, "conc", dict(inp, only="cancel", rounds=3 * rounds), shards=8, tolerate_crash=True, timeout=2400)
+    if len(lib.CRASHED) > len(crashed_before) and not races:
+        raise Inconclusive("conc harness (plain binary) failed: %s" % lib.CRASHED[-1][2][-1500:])
+    recs = recs + [x for x in recs2 if "cancel_round" in x]
+    want_cancel = rounds // 3 + rounds
     got = 0
     mixed = 0
     cancel_rounds = abandoned = 0
@@ -78,11 +87,11 @@ def c14(tier):
     ck.extra["mixed_read_write_rounds"] = mixed
     ck.extra["rounds_with_abandoned_requests"] = cancel_rounds
     ck.extra["requests_that_failed_because_their_client_gave_up"] = abandoned
-    if cancel_rounds < rounds // 3 and not races:
-        raise Inconclusive("only %d of %d rounds with abandoned requests ran" % (cancel_rounds, rounds // 3))
+    if cancel_rounds < want_cancel and not races:
+        raise Inconclusive("only %d of %d rounds with abandoned requests ran" % (cancel_rounds, want_cancel))
     ck.extra["race_reports"] = len(races)
     ck.rule = ("%d rounds of %d requests (check, batch check, expand, list over REST and gRPC) released by a barrier against a registry that has served nothing yet, in a binary built "
-               "with -race; every second round is followed by a round on a fresh registry in which a third of the requests are writes (REST put / patch / delete, gRPC transact; race detector and crashes only); every third round additionally runs on a fresh registry with half of the clients giving up after 0.15..3.6 ms next to requests that run to completion, followed by a sequential pass, both compared with answers computed before any request was abandoned; each reply of the read-only rounds is compared with the same request run alone, the visited sets recorded through hook H1 are compared as multisets; non-trivial: rounds in which checks expanded subject sets" % (rounds, par))
+               "with -race; every second round is followed by a round on a fresh registry in which a third of the requests are writes (REST put / patch / delete, gRPC transact; race detector and crashes only); every third round additionally runs on a fresh registry with half of the clients giving up 5%%..95%% of the way through their request (measured alone) next to requests that run to completion, followed by a sequential pass, both compared with answers computed before any request was abandoned (these rounds run on one, two and all processors, and three times as many of them once more in a binary without the race detector); each reply of the read-only rounds is compared with the same request run alone, the visited sets recorded through hook H1 are compared as multisets; non-trivial: rounds in which checks expanded subject sets" % (rounds, par))
     ck.assumptions = ["data-race freedom is observed with Go's race detector on the spec-generated workload, not derived from the TLA+ model",
                       "sqlite in-memory backend only"]
     ck.finish()
